@@ -6,6 +6,10 @@ usage: tools/sweep_thorough.py <cap-seconds> <jobs> <crate>..."""
 import os, sys, json, re
 sys.path.insert(0, os.path.join(os.path.dirname(os.path.abspath(__file__)), "..", "lib"))
 import driver
+if any(a.startswith("--only=") for a in sys.argv):
+    # excluded (`_x_`) harnesses are not discovered by the checks; this tool may look at them
+    driver.HARN_RE = re.compile(driver.HARN_RE.pattern.replace("[qtvk]", "[qtvkx]"))
+    driver.MACRO_RE = re.compile(driver.MACRO_RE.pattern.replace("[qtvk]", "[qtvkx]"))
 
 cap, jobs = int(sys.argv[1]), int(sys.argv[2])
 out = {}
